@@ -185,10 +185,12 @@ class PopenExecutor(concurrent.futures.Executor):
 
         Raises ShutdownError if the executor has been shutdown."""
 
-        if self._shutdown.is_set():
-            raise ShutdownError()
-
         with self._lock:
+            # check under the lock: shutdown(wait=False) sets the flag before it takes the lock
+            # to cancel the registered futures, so a future is either refused or gets cancelled
+            if self._shutdown.is_set():
+                raise ShutdownError()
+
             self._futures.append(future)
             future.start()
             return future
